@@ -1,0 +1,115 @@
+//! `Assembler` executor (component `asm`).
+//!
+//! Inserted bytes are always the ground stream of `sbuf` (byte at offset `o` = `(o * 7 + 3) % 251`):
+//! the consistency hypothesis of the stream-delivery property is built into the protocol.
+//! The implementation is free in how it chunks reads and when it defragments, so a request may
+//! carry trailing *observation* tokens (what the implementation answered when the request was
+//! first executed); they are ignored here and validated by the model.
+//!
+//! ```text
+//! asm insert <off> <len> <alloc> [obs]   insert(off, ground[off..off+len], alloc), len <= 65536
+//!                                          -> ok | <state>        or  err TooManyChunks | <state>
+//! asm read <max> <ord|unord> [obs]       ensure_ordering(ordered)?; read(max, ordered)   (what `Chunks` does)
+//!                                          -> ok <off> <len> <hex> | <state>   or   none | <state>
+//!                                          or err IllegalOrderedRead | <state>
+//! asm ensure <ord|unord>                 ensure_ordering   -> ok | <state>  or  err IllegalOrderedRead | <state>
+//! asm clear                              clear             -> ok | <state>
+//! asm q                                  bytes_read        -> ok <n>
+//! <state> = r=<bytes_read> e=<end> m=<ord|unord> rc=<recvd ranges> c=<offsets covered by buffered chunks, merged>
+//! ```
+use bytes::Bytes;
+
+use super::{BAD, Comp, hex, num, sbuf::ground, sbuf::ranges};
+use crate::connection::assembler::Assembler;
+
+pub(super) struct AsmC(Assembler);
+
+impl AsmC {
+    pub(super) fn new() -> Self {
+        Self(Assembler::new())
+    }
+
+    fn state(&self) -> String {
+        let (unordered, recvd, chunks, bytes_read, end) = self.0.verif_state();
+        let mut cov: Vec<std::ops::Range<u64>> =
+            chunks.iter().map(|&(o, l)| o..o + l as u64).collect();
+        cov.sort_by_key(|r| (r.start, r.end));
+        let mut merged: Vec<std::ops::Range<u64>> = Vec::new();
+        for r in cov {
+            if r.start == r.end {
+                continue;
+            }
+            match merged.last_mut() {
+                Some(l) if r.start <= l.end => l.end = l.end.max(r.end),
+                _ => merged.push(r),
+            }
+        }
+        format!(
+            "| r={bytes_read} e={end} m={} rc={} c={}",
+            if unordered { "unord" } else { "ord" },
+            ranges(&recvd),
+            ranges(&merged)
+        )
+    }
+}
+
+fn mode(s: &str) -> Option<bool> {
+    match s {
+        "ord" => Some(true),
+        "unord" => Some(false),
+        _ => None,
+    }
+}
+
+impl Comp for AsmC {
+    fn exec(&mut self, w: &[&str]) -> String {
+        match w {
+            ["insert", off, len, alloc, ..] => {
+                let (Some(off), Some(len), Some(alloc)) = (num(off), num(len), num(alloc)) else {
+                    return BAD.into();
+                };
+                if len > 65536 {
+                    return BAD.into();
+                }
+                let data: Vec<u8> = (0..len).map(|i| ground(off.wrapping_add(i))).collect();
+                match self.0.insert(off, Bytes::from(data), alloc as usize) {
+                    Ok(()) => format!("ok {}", self.state()),
+                    Err(_) => format!("err TooManyChunks {}", self.state()),
+                }
+            }
+            ["read", max, m, ..] => {
+                let (Some(max), Some(ordered)) = (num(max), mode(m)) else {
+                    return BAD.into();
+                };
+                if self.0.ensure_ordering(ordered).is_err() {
+                    return format!("err IllegalOrderedRead {}", self.state());
+                }
+                match self.0.read(max as usize, ordered) {
+                    Some(c) => format!(
+                        "ok {} {} {} {}",
+                        c.offset,
+                        c.bytes.len(),
+                        hex(&c.bytes),
+                        self.state()
+                    ),
+                    None => format!("none {}", self.state()),
+                }
+            }
+            ["ensure", m] => {
+                let Some(ordered) = mode(m) else {
+                    return BAD.into();
+                };
+                match self.0.ensure_ordering(ordered) {
+                    Ok(()) => format!("ok {}", self.state()),
+                    Err(_) => format!("err IllegalOrderedRead {}", self.state()),
+                }
+            }
+            ["clear"] => {
+                self.0.clear();
+                format!("ok {}", self.state())
+            }
+            ["q"] => format!("ok {}", self.0.bytes_read()),
+            _ => BAD.into(),
+        }
+    }
+}
